@@ -299,7 +299,8 @@ def directed_cases(ck):
     for src in ("from [{a = 1}, 2]", "from [{a = 1}, \"x\"]", "from [{a = 1}, [2]]"):
         add("fixed:N13", "compile", src, target="sql.generic")
     # C12-N14 (open): a lambda without parameters around a transform
-    for src in ("from t | -> take 5", "from t | (-> derive {x = 1})", "from t | func -> append u"):
+    for src in ("from t | -> take 5", "from t | (-> derive {x = 1})", "from t | func -> append u", "let f = x -> take x\nfrom t | f 5",
+                "let f = x -> in x\nfrom t | filter (a | f 1..2)"):
         add("N14:lambda", "compile", src, target="sql.generic")
     # F29 (456bdcd), lowering / from_text panics (7911778, 287b286, 8204886): the programs are in c12_streams.EXTRA_PROGRAMS
     # C12-N5 (222f71a): i64::MIN under a negation -- PL from JSON (constant folding) ...
@@ -481,3 +482,17 @@ def closure_correspondence(ck, ginfo):
         if m != got:
             ck.violation("Model/Closure.v fold differs from the resolver on `%s`: model %s, impl %s" % (p[0], m, got),
                          {"src": p[0], "entry": "rq", "model": str(mv)[:300], "impl": got, "term": p[1], "kind": "correspondence"})
+
+
+def parse_retry_times(ck):
+    """evidence next to c12_parse_nested_named_cost (Model/ParseRetry.v: calls n = 2^(n+1) - 1): the time of prql_to_pl on
+    `(f x:(f x:( .. 1 .. )))` at depth 10, 12, 14 (log off), with the ratios per two levels (model: 4)"""
+    ds = (10, 12, 14)
+    reqs = [{"entry": "pl", "src": "from t | derive x = " + "(f x:" * d + "1" + ")" * d, "stack_mb": 64, "log": "off"} for d in ds]
+    ans = probe(reqs, cap_ms=30000, shards=3)
+    ms = [a.get("ms") for a in ans]
+    for d in ds:
+        ck.count("parse-retry-times", str(d))
+    ck.coverage["parse_retry_ms_at_depth_10_12_14"] = ms
+    if all(isinstance(x, int) and x > 0 for x in ms):
+        ck.coverage["parse_retry_ratio_per_two_levels"] = [round(ms[1] / ms[0], 2), round(ms[2] / ms[1], 2)]
